@@ -390,7 +390,7 @@ def run(ctx):
             buf = np.array(vals, dtype=float)[::-1].copy()
             ctx.count("form:values:reversed-view")
             return reg("values", buf[::-1])
-        if k == 4 and all(float(v).is_integer() and abs(v) < 2 ** 31 for v in vals):
+        if k == 4 and all(float(v).is_integer() and abs(v) < 2 ** 31 and fx(v) != fx(-0.0) for v in vals):
             ctx.count("form:values:int-into-float-game")
             return [int(v) for v in vals]
         ctx.count("form:values:ndarray")
